@@ -375,23 +375,27 @@ func runC08(r *vk.Run) {
 	// label set, and then all of them together, where its stream must carry exactly that set
 	r.Phase("errorstreams", r.N(150, 20000), func(c *vk.Case) {
 		rng := c.Rng
-		broken := []string{`{"a":1`, `{"a" 1}`, `{"a":1,}`, `GET /healthz 200`, `POST /login 302`, `[1,2]`, `{"a":{"b":`, `{a:1}`, `{"k":oops}`, `a="unterminated`, `{"_entry":"x","0k":"v"}`}
+		broken := []string{`{"a":1`, `{"a" 1}`, `{"a":1,}`, `GET /healthz 200`, `POST /login 302`, `[1,2]`, `{"a":{"b":`, `{a:1}`, `{"k":oops}`, `a="unterminated`, `{"_entry":"x","0k":"v"}`,
+			// broken in the middle of a nested object / array, after members that were fine
+			`{"n":2,"a":{"b":"v"},"req":{"dur":`, `{"a":{"b":"v","c":[1,{"d":`, `{"meta":{"level":"warn"},"a":{"b":`}
 		n := rng.Range(3, 10)
 		var recs []Rec
 		for i := 0; i < n; i++ {
 			line := vk.Pick(rng, broken)
-			if rng.Chance(1, 4) {
-				line = `{"a":1,"lvl":"info"}`
+			if rng.Chance(1, 3) {
+				line = vk.Pick(rng, []string{`{"a":1,"lvl":"info"}`, `{"a":{"b":"v1"},"lvl":"info"}`, `{"meta":{"level":"warn"},"a":{"b":2}}`, `{"a":{"b":"v3"},"meta":{"level":"error"}}`})
 			}
 			recs = append(recs, Rec{TS: logT0 + int64(i+1)*1e9, Line: line, Labels: map[string]string{"app": "x"}})
 		}
-		stage := vk.Pick(rng, []string{"| json", "| json a, lvl", "| logfmt", "| unpack", `| json x="a.b"`}) + vk.Pick(rng, []string{" | drop msg", " | drop msg", " | keep app, __error__, __error_details__", ` | label_format msg="m"`})
+		stage := vk.Pick(rng, []string{"| json", "| json a, lvl", "| logfmt", "| unpack", `| json x="a.b"`, `| json x="a.b", l="meta.level"`, `| json x="a.b", l="meta.level"`}) + vk.Pick(rng, []string{" | drop msg", " | drop msg", " | keep app, __error__, __error_details__", ` | label_format msg="m"`})
 		if c.Idx%3 == 0 {
 			// no stage at all: the label set is what the storage says about the record, and a record with
 			// an empty line carries no line label -- not the one of its predecessor
 			stage = vk.Pick(rng, []string{"", "", `|= ""`, "| drop nosuch"})
 			for i := range recs {
-				recs[i].Line = vk.Pick(rng, []string{"", "", "x", "x", "y z", "\n"})
+				recs[i].Line = vk.Pick(rng, []string{"", "", "x", "x", "y z", "\n",
+					// lines that differ only in bytes that are not valid UTF-8 (Latin-1 text), next to the replacement character
+					"caf\xe9 ouvert", "caf\xe8 ouvert", "caf\ufffd ouvert", "\xff", "\xfe"})
 			}
 			c.Count("stage_less_queries", 1)
 		}
